@@ -49,7 +49,8 @@ const Statement * LETNStatement::doit(Context& ctx) const
     /* values MUST be of the same type */
     if (_typ != ptd.type())
       throw RuntimeError(EXC_RT_TYPE_MISMATCH_S, ptd.typeName().c_str());
-    ptd.swap(std::move(Value(_typ)));
+    /* the element stays the storage of the table: a null of its type, still flagged as such */
+    ptd.swap(Value(_typ).to_lvalue(true));
     return _next;
   }
 }
